@@ -21,3 +21,13 @@ Definition nv_prog : ast :=
             (AOp op_mul (AIdent nv_x) (ACall (AIdent nv_f) [AStatic n_abs [AUnary op_sub (AIdent nv_y)]]))
             (AMethod (AMethod (AList [AConst (VInt 1); AConst (VInt 2)]) n_map [AIdent nv_f]) n_size []))
          (AStatic n_throw [AConst (VStr nv_y)]))).
+
+(* second non-vacuity program: let g = (x -> y -> x + y)(1); g(2) + a - the call at Generate time
+   returns a closure that captures x = 1; the implementation's optimizer keeps it as a constant (the
+   strict optimizer does not), and g(2) is then executed at run time on that constant *)
+Definition nv_g : name := [103%N].
+Definition nv_a : name := [97%N].
+Definition nv_prog2 : ast :=
+  ALet nv_g (ACall (AClosure [nv_x] (AClosure [nv_y] (AOp op_add (AIdent nv_x) (AIdent nv_y)) [nv_x] false []) [] false [])
+                   [AConst (VInt 1)])
+    (AOp op_add (ACall (AIdent nv_g) [AConst (VInt 2)]) (AIdent nv_a)).
